@@ -62,4 +62,11 @@ for d in sorted(glob.glob(os.path.join(V, "seeded", "*-*"))):
         meta["caught_now_by"] = det[1]
         if det[2]: meta["check_strengthened"] = det[2]
     json.dump(meta, open(os.path.join(d, "meta.json"), "w"), indent=1)
+rows = ["# Seeded breaking changes (written by fresh sub-agents from the property text only)", "",
+        "Each directory holds `patch.diff` (the source change), `demo_test.go.txt` (a test that fails with the change and passes without), `meta.json` and `verify.json` (the coordinator's confirmation: builds, existing suite passes with the change, demo fails with / passes without).", "",
+        "| seed | caught when first delivered | caught now by | what was strengthened |", "|---|---|---|---|"]
+for name in sorted(DET):
+    d = DET[name]
+    rows.append("| %s | %s | %s | %s |" % (name, "yes" if d[0] else "no", d[1], d[2] or "—"))
+open(os.path.join(V, "seeded", "README.md"), "w").write("\n".join(rows) + "\n")
 print("wrote", len(glob.glob(os.path.join(V, "seeded", "*-*"))), "meta.json files")
